@@ -21,7 +21,8 @@ RULE = ("Exhaustive part: every weak ordering (rank pattern) of length 2..6 (qui
         "n 2..200 with heavy ties (int16 |x|<=16000, float32), through mann_kendall_trend_1d, both gufunc wrappers, "
         "mann_kendall_trend_yxt and DataArray.hdc.algo.mktrend(); invariances (strictly increasing maps, negation, reversal, slope "
         "scaling) and the all-nodata rule. float32 outputs compared at 2 ulp32 (+4e-16 absolute for p). Non-trivial: the pattern has "
-        "a tie or n != 10; distinct by content hash / pattern.")
+        "a tie or n != 10; distinct by content hash / pattern. "
+        " Added after the fourth seeded round: Sub-check 'critical': for every length 8..200 (400) the two tie-free series whose Z straddles the 5 % critical value most tightly, through all six entry points.")
 ASSUME = ["scipy.special.ndtr for the reference p-value", "either flag accepted when |p - 0.05| < 1e-9"]
 EXHAUSTIVE_WHOLE = False
 
